@@ -249,3 +249,16 @@ Fixpoint labels_taken (cfg : config) (fuel : nat) (g : sstate) (l : list N) : li
       end
     end
   end.
+
+(* ---------------------------------------------------------------- what can still be stated *)
+(* With snapshot transfer a server may keep stale entries AT OR BELOW the index of the snapshot it
+   last installed (known finding F3-ii), so Log Matching can only be claimed above the snapshot
+   boundaries: two logs that hold an entry of the same term at an index hold the same entry at every
+   index up to it that both retain ABOVE both servers' last snapshot index *)
+Definition snap_idx_of (n : gnode) : N := v_lastSnapIdx (image (gn_run n)).
+
+Definition log_matching_above_snapshots (g : lgstate) : Prop :=
+  forall a b, In a (g_nodes (lg_g g)) -> In b (g_nodes (lg_g g)) ->
+  forall i ea eb, log_of a !! i = Some ea -> log_of b !! i = Some eb -> e_term ea = e_term eb ->
+  forall k ka kb, k <= i -> snap_idx_of a < k -> snap_idx_of b < k ->
+    log_of a !! k = Some ka -> log_of b !! k = Some kb -> ka = kb.
